@@ -8,3 +8,6 @@ type timerVerif struct{}
 
 // verifArm is the identity outside verification builds.
 func (t *timer) verifArm(d time.Duration) time.Duration { return d }
+
+// verifStretch is the identity outside verification builds.
+func verifStretch(d time.Duration) time.Duration { return d }
